@@ -64,6 +64,27 @@ func (s *SubscriptionService) DeleteSubscription(id uint32) {
 
 }
 
+const (
+	// the fastest and the slowest publishing interval the server supports, in milliseconds
+	minPublishingInterval = 1.0
+	maxPublishingInterval = 24 * 60 * 60 * 1000.0
+)
+
+// revisePublishingInterval maps the interval a client asked for to one the
+// publishing ticker can run with. A requested interval of zero or less (and
+// anything that is not a number) selects the fastest supported interval.
+//
+// https://reference.opcfoundation.org/Core/Part4/v105/docs/5.13.2
+func revisePublishingInterval(ms float64) float64 {
+	switch {
+	case !(ms >= minPublishingInterval): // also true for NaN
+		return minPublishingInterval
+	case ms > maxPublishingInterval:
+		return maxPublishingInterval
+	}
+	return ms
+}
+
 // https://reference.opcfoundation.org/Core/Part4/v105/docs/5.13.2
 func (s *SubscriptionService) CreateSubscription(sc *uasc.SecureChannel, r ua.Request, reqID uint32) (ua.Response, error) {
 	if s.srv.cfg.logger != nil {
@@ -89,7 +110,7 @@ func (s *SubscriptionService) CreateSubscription(sc *uasc.SecureChannel, r ua.Re
 	sub.Session = s.srv.Session(r.Header())
 	sub.Channel = sc
 	sub.ID = newsubid
-	sub.RevisedPublishingInterval = req.RequestedPublishingInterval
+	sub.RevisedPublishingInterval = revisePublishingInterval(req.RequestedPublishingInterval)
 	sub.RevisedLifetimeCount = req.RequestedLifetimeCount
 	sub.RevisedMaxKeepAliveCount = req.RequestedMaxKeepAliveCount
 
@@ -107,7 +128,7 @@ func (s *SubscriptionService) CreateSubscription(sc *uasc.SecureChannel, r ua.Re
 			AdditionalHeader:   ua.NewExtensionObject(nil),
 		},
 		SubscriptionID:            uint32(newsubid),
-		RevisedPublishingInterval: req.RequestedPublishingInterval,
+		RevisedPublishingInterval: sub.RevisedPublishingInterval,
 		RevisedLifetimeCount:      req.RequestedLifetimeCount,
 		RevisedMaxKeepAliveCount:  req.RequestedMaxKeepAliveCount,
 	}
@@ -374,7 +395,7 @@ func (s *Subscription) run() {
 	keepalive_counter := 0
 	lifetime_counter := 0
 	//TODO: if a sub is modified, this ticker time may need to change.
-	s.T = time.NewTicker(time.Millisecond * time.Duration(s.RevisedPublishingInterval))
+	s.T = time.NewTicker(time.Duration(revisePublishingInterval(s.RevisedPublishingInterval) * float64(time.Millisecond)))
 	defer s.T.Stop()
 
 	// This is the master run event loop.  It has effectively 3 states that it can be in.  The first two are designated with
